@@ -494,7 +494,7 @@ def gen_overlapping(rng, tier, kinds, margin_prob=0.0, stream=None):
             meta["kinds"] = [k1, k2]
         elif stream_ == "small":
             # feature sizes of a few 1e-2 (lower end of the declared domain): tiny polytope faces
-            sz = [0.01, 0.0125, 0.02, 0.025, 0.04, 0.05]
+            sz = [0.01, 0.01, 0.0125, 0.015, 0.02, 0.03, 0.05]     # weighted towards the lower end of the domain
             s1 = nw.gen_collider(rng, k1, "moderate", spread=1.0, margin_prob=margin_prob, sizes=sz)
             s2 = nw.gen_collider(rng, k2, "moderate", spread=1.0, margin_prob=margin_prob, sizes=sz)
             f = min(nw.feature_size(s1), nw.feature_size(s2))
